@@ -61,8 +61,9 @@ uint32_t SerialEvent::calculateObjectSize() const {
         sizeof(reservedSerialEvent) +
         16; // size of union of singleByte/compact/general
 
-    if (flags & ~(Flags::SingleByte | Flags::CompactByte))
-        size += general.dataLength + general.timeStampsLength;
+    /* the general variant (neither SingleByte nor CompactByte, as in read/write) carries its payload behind the union */
+    if (!(flags & (Flags::SingleByte | Flags::CompactByte)))
+        size += static_cast<uint32_t>(general.data.size() + general.timeStamps.size() * sizeof(int64_t));
 
     return size;
 }
